@@ -4,6 +4,7 @@
 mod checks;
 mod engine;
 mod model;
+mod scene;
 
 use engine::*;
 use std::path::PathBuf;
